@@ -155,14 +155,17 @@ func TestVerif_C08_maperr(t *testing.T) {
 
 func TestVerif_C08_retrydecision(t *testing.T) {
 	s := verifh.New(t, "C08", "retrydecision",
-		"Request.do driven by a scripted round tripper (WrapRoundTrip): MaxRetries 0..4 x sequences of attempt results {ok, context.Canceled, DeadlineExceeded, other error} (errors wrapped in *url.Error as http.Client does), zero retry interval; compared: number of attempts made and class of the final result; non-trivial = at least one retry or a context error")
+		"Request.do driven by a scripted round tripper (WrapRoundTrip): MaxRetries -1 (unlimited) and 0..4 x sequences of attempt results {ok, context.Canceled, DeadlineExceeded, other error} (errors wrapped in *url.Error as http.Client does), zero retry interval; compared: number of attempts made and class of the final result; non-trivial = at least one retry or a context error")
 	r := s.Rand()
 	cnt := map[string]int{}
 	count := func(k string) { cnt[k]++; s.Count(k) }
 	n := verifh.N(300, 6000)
 	for c := 0; c < n; c++ {
-		maxRetries := r.Intn(5)
+		maxRetries := r.Intn(6) - 1 // -1: retry without limit (rare but legal)
 		seq := make([]string, maxRetries+2)
+		if maxRetries < 0 {
+			seq = make([]string, 2+r.Intn(6))
+		}
 		for i := range seq {
 			switch x := r.Intn(10); {
 			case x < 5:
@@ -175,11 +178,18 @@ func TestVerif_C08_retrydecision(t *testing.T) {
 				seq[i] = "deadline"
 			}
 		}
+		if maxRetries < 0 {
+			// the script of an unlimited request must end by itself
+			seq[len(seq)-1] = verifh.Pick(r, []string{"ok", "canceled", "canceled"})
+		}
 		attempts := 0
 		cl := C().SetCommonRetryCount(maxRetries).SetCommonRetryFixedInterval(0)
 		cl.WrapRoundTripFunc(func(rt RoundTripper) RoundTripFunc {
 			return func(rq *Request) (*Response, error) {
-				k := seq[attempts]
+				k := "ok" // (beyond the script: an attempt that should never have been made)
+				if attempts < len(seq) {
+					k = seq[attempts]
+				}
 				attempts++
 				resp := &Response{Request: rq}
 				var err error
@@ -222,8 +232,14 @@ func TestVerif_C08_retrydecision(t *testing.T) {
 		final := c08Class(ferr)
 		got := fmt.Sprintf("attempts=%d final=%s", attempts, final)
 		// oracle: never more than MaxRetries+1 attempts; nothing after context.Canceled
-		ok := attempts <= maxRetries+1
-		for i := 0; i < attempts-1; i++ {
+		ok := attempts <= maxRetries+1 || (maxRetries < 0 && attempts <= len(seq))
+		if maxRetries < 0 {
+			count("unlimited-retries")
+			if final == "canceled" {
+				count("unlimited-retries-stopped-by-cancel")
+			}
+		}
+		for i := 0; i < attempts-1 && i < len(seq); i++ {
 			if seq[i] == "canceled" || seq[i] == "ok" {
 				ok = false
 			}
@@ -234,7 +250,7 @@ func TestVerif_C08_retrydecision(t *testing.T) {
 			attempts > 1 || final == "canceled" || final == "deadline",
 			fmt.Sprintf("MaxRetries=%d results=%v -> %s", maxRetries, seq, got))
 	}
-	for _, want := range []string{"final=ok", "final=canceled", "final=deadline", "final=other", "attempts=1", "attempts=3"} {
+	for _, want := range []string{"final=ok", "final=canceled", "final=deadline", "final=other", "attempts=1", "attempts=3", "unlimited-retries"} {
 		if cnt[want] == 0 {
 			t.Errorf("bucket %s not reached", want)
 		}
